@@ -6,7 +6,7 @@
    (None = ExhaustedFailures), for ANY objective scaler sc and scalarisation scal that keep lengths and finiteness. *)
 From Coq Require Import List ZArith QArith Bool Arith String.
 Import ListNotations.
-Require Import DH.C06_Failures.Model DH.C06_Failures.Lemmas DH.C06_Failures.Lemmas2 DH.C06_Failures.Check DH.C06_Failures.Lemmas3.
+Require Import DH.C06_Failures.Model DH.C06_Failures.Lemmas DH.C06_Failures.Lemmas2 DH.C06_Failures.Check DH.C06_Failures.Lemmas3 DH.C06_Failures.Lemmas4.
 Require DH.C06_Failures.LemmasFacts.
 Module LF := DH.C06_Failures.LemmasFacts.
 Module F := DH.Generated.Facts_C06.
@@ -21,7 +21,9 @@ Theorem C06_markers :
   LF.nonempty F.cbo_tell_prefixes = true /\ forallb (String.eqb "F") F.cbo_tell_prefixes = true /\
   forallb (fun p => LF.behaves_as (LF.policy_name p) p) LF.policies = true /\
   forallb (fun n => existsb (LF.behaves_as n) LF.policies) LF.distinguished_names = true /\
-  F.cbo_default_filter_failures = LF.policy_name PMin.
+  F.cbo_default_filter_failures = LF.policy_name PMin /\
+  LF.nonempty F.fit_surrogate_told = true /\ forallb (String.eqb F.objective_value_failure) F.fit_surrogate_told = true /\
+  forallb (fun s => LF.smem s F.cbo_ignore_literals) F.fit_surrogate_policy_literals = true.
 Proof. exact LF.markers. Qed.
 Print Assumptions C06_markers.
 
@@ -122,6 +124,30 @@ Theorem C06_lie_inputs_well_shaped : forall pol maxf s ys,
 Proof. exact lie_inputs_well_shaped. Qed.
 Print Assumptions C06_lie_inputs_well_shaped.
 
+(* ---- several search() calls on one object: the state is the run over the concatenated histories (nothing is reset),
+        so the theorems above hold at every point of every call ---- *)
+Theorem C06_calls_compose : forall fixed p n0 calls,
+  run fixed p n0 (List.concat calls) = fold_left (run_from fixed p) calls (mkO [] n0).
+Proof. exact calls_compose_many. Qed.
+Print Assumptions C06_calls_compose.
+
+(* ---- a search continued from a checkpoint with failed rows (CBO.fit_surrogate, n_initial_points = 0): finite fit
+        inputs at every later point, for every policy; the exception is again in the hypothesis ---- *)
+Theorem C06_restart_fit_inputs_finite :
+  forall sc scal, scaler_ok sc -> scalarizer_ok scal ->
+  forall (ff : bool) p maxf n0 raw hist,
+    let st := run_from true p (restart true p n0 (map (on_done true) raw)) hist in
+    has_success (yi st) = true \/ (List.length (yi st) < maxf)%nat ->
+    exists ys, fit_input sc scal ff (opt_policy p) maxf (yi st) = Some ys /\ fit_ok ys = true /\
+               List.length ys = List.length (yi st).
+Proof. exact restart_fit_inputs_finite. Qed.
+Print Assumptions C06_restart_fit_inputs_finite.
+
+Theorem C06_restart_label_irrelevant : forall fixed p n0 objs objs',
+  Forall2 relabelled objs objs' -> restart fixed p n0 objs = restart fixed p n0 objs'.
+Proof. exact restart_label_irrelevant. Qed.
+Print Assumptions C06_restart_label_irrelevant.
+
 (* ---- the pinned code ---- *)
 (* F08: (1, 2) then (2, nan), n_initial_points = 1, "min", identity scaler, linear scalarisation: the fit receives NaN *)
 Theorem C06_tuple_nan_refuted :
@@ -139,6 +165,14 @@ Print Assumptions C06_tuple_row_refuted.
 Theorem C06_cl_lie_refuted : ask_lie false OMean 100 CLMean [TVec [Fin 1; Fin 2]; TFail] = LieShapeError.
 Proof. exact cl_lie_refuted. Qed.
 Print Assumptions C06_cl_lie_refuted.
+
+(* F72: pinned fit_surrogate under "ignore": checkpoint rows 1.0 and 'F': the marker is handed to the estimator *)
+Theorem C06_restart_ignore_refuted :
+  let st := restart false PIgnore 10 [OScal (ENum (Fin 1)); OScal (EStr 0 true)] in
+  fit_due st = true /\
+  exists ys, fit_input sc_id (scal_lin []) false (opt_policy PIgnore) 100 (yi st) = Some ys /\ fit_ok ys = false /\ In TFail ys.
+Proof. exact restart_ignore_refuted. Qed.
+Print Assumptions C06_restart_ignore_refuted.
 
 (* ---- the oracles applied to observed runs ---- *)
 Theorem C06_oracle_search : forall o, ok_search o = 0%nat <-> search_spec o.
@@ -192,3 +226,10 @@ Proof. repeat constructor. Qed.
 Example C06_example_lie :
   exists y, ask_lie true OMax 100 CLMin [TVec [Fin 1; Fin 2]; TFail; TVec [Fin 3; Fin 0]] = LieOk y /\ finite_told y = true.
 Proof. eexists. vm_compute. auto. Qed.
+
+(* a checkpoint holding only failed rows, "min": the repaired code fits on zeros (no scaler call) and carries on *)
+Example C06_example_restart_all_failed :
+  let st := restart true PMin 10 (map (on_done true) [OScal (EStr 4 true); OScal (ENum NaN)]) in
+  fit_due st = true /\ has_success (yi st) = false /\
+  exists ys, fit_input sc_id (scal_lin []) true (opt_policy PMin) 100 (yi st) = Some ys /\ fit_ok ys = true /\ List.length ys = 2%nat.
+Proof. cbn zeta. split; [reflexivity|]. split; [reflexivity|]. eexists. vm_compute. auto. Qed.
